@@ -159,6 +159,32 @@ def run(ctx):
                 bad.append({"what": f"something was written to stdout although the run failed ('{label}')", "stdout": r["out"].decode(errors="replace")[:200]})
             if want_rc != 0 and not r["err"].strip():
                 bad.append({"what": f"no diagnostic on stderr for input class '{label}'"})
+        # projects without any task (header only / resources only, also with an own task report): the id/start/end
+        # report of all tasks is then the empty report - exit 0, data [], the three columns; CSV: the header line only
+        import hashlib
+        empties = {"empty1.tjp": b'project p "P" 2025-01-06 +1w { timezone "Etc/UTC" }\n',
+                   "empty2.tjp": b'project p "P" 2025-01-06 +1w { timezone "Etc/UTC" }\nresource r "R" {}\nresource s "S" {}\n',
+                   "empty3.tjp": b'project p "P" 2025-01-06 +1w { timezone "Etc/UTC" }\nresource r "R" {}\ntaskreport own "own" { formats json, csv columns id, name }\n'}
+        for fn, data in empties.items():
+            box.put(fn, data)
+            for args, stdin in ((["--quiet", "report", fn], None), (["--quiet", "report", "--csv", fn], None), (["--quiet", "report"], data)):
+                r = box.run(args, stdin=stdin)
+                stats["notasks"] += 1
+                if r["rc"] != 0:
+                    bad.append({"what": "a project without tasks is not reported as the empty id/start/end report (exit status)", "rc": r["rc"], "args": args, "text": data.decode(),
+                                "stderr": r["err"].decode(errors="replace")[-300:]})
+                    continue
+                if "--csv" in args:
+                    rows = [x for x in csv.reader(io.StringIO(r["out"].decode(errors="replace"))) if x]
+                    if len(rows) != 1 or [h.lower() for h in rows[0]] != ["id", "start", "end"]:
+                        bad.append({"what": "a project without tasks is not reported as the empty id/start/end report (CSV)", "stdout": r["out"].decode(errors="replace")[:300], "text": data.decode()})
+                else:
+                    try:
+                        js = json.loads(r["out"].decode())
+                    except ValueError:
+                        js = None
+                    if not js or js.get("data") != [] or [c.lower() for c in js.get("columns", [])] != ["id", "start", "end"] or js.get("report_id") != hashlib.sha256(data).hexdigest():
+                        bad.append({"what": "a project without tasks is not reported as the empty id/start/end report (JSON)", "stdout": r["out"].decode(errors="replace")[:300], "text": data.decode()})
     finally:
         box.close()
     violations, seen = [], set()
@@ -173,7 +199,7 @@ def run(ctx):
         violations.append({"no_input": True, "replay": common.write_replay(ctx, {"property": "C19", "kind": "proof obligation no longer checks; no failing input found", "failing_obligations": failing})})
     cov = {"obligations": nob, "discharged": ndis, "checker_cmd": "tools/coqbuild.sh (coqc 8.16.1 full .vo build)", "trusted_base": common.TRUSTED, "files": files,
            "traces_validated_against_impl": sum(v for k, v in stats.items()), "input_distribution": dict(stats), "findings": len(bad),
-           "rule": "the real entry point (scriptplan.cli.plan:main) as a subprocess with private cwd and TMPDIR: generated projects (incl. projects across a year end, where ISO week-year and calendar year differ) x {no, 1-3 own reports in json/csv/both with names sorting before and after the auto report} x {file, stdin, stdin '-'} x {json, csv} x LF/CRLF x file names with/without .tjp; stdout compared with the schedule obtained through the API; classes of bad input (missing, directory, empty file, empty/blank stdin, syntax error, report definitions the library ends with sys.exit, unschedulable task)",
+           "rule": "the real entry point (scriptplan.cli.plan:main) as a subprocess with private cwd and TMPDIR: generated projects (incl. projects across a year end, where ISO week-year and calendar year differ) x {no, 1-3 own reports in json/csv/both with names sorting before and after the auto report} x {file, stdin, stdin '-'} x {json, csv} x LF/CRLF x file names with/without .tjp; stdout compared with the schedule obtained through the API; classes of bad input (missing, directory, empty file, empty/blank stdin, syntax error, report definitions the library ends with sys.exit, unschedulable task); projects without tasks (the empty report)",
            "samples": [{"args": ["report", "p.tjp"], "expect": "exit 0, JSON {data, columns=[id,start,end], report_id=sha256(input)}"}]}
     common.finish(ctx, "proof", cov, violations,
                   ["partial: click, the OS and exit-status delivery are runtime; the Coq model covers the decision table of report() only - the expected exit status, stdout selection and diagnostics of every run are taken from the extracted Model/Cli.v (plan_report)"])
